@@ -573,3 +573,86 @@ def closures_linear(ctx, world):
                 "any point: rule(2g) != 2 rule(g), so <g, JVP v> != <VJP g, v> and scaling the cotangent changes the direction of the gradient",
             )
     ctx.floor("A5.lin closures analysed", n, 250)
+
+
+SELF_META_FN = {"shape", "ndim", "size", "metadata", "vspace", "iscomplexobj", "isrealobj", "result_type", "len", "isinstance", "type", "isscalar", "dtype", "zeros_like", "ones_like", "empty_like", "can_cast", "min_scalar_type", "issubdtype"}
+
+
+def linear_args_unread(ctx, world):
+    """A5.selfread - where the forward-mode table declares a function LINEAR in an argument (def_linear / "same":
+    the tangent is the function itself applied to the tangent), its derivative with respect to that argument does not
+    depend on the argument.  The VJP rule of that argument may read the argument's metadata (shape, ndim, dtype,
+    vspace, real/complex kind) but never its VALUE: a rule that multiplies the cotangent by the differentiated
+    argument itself contradicts the linearity its twin relies on (for a bilinear function - multiply, dot, matmul,
+    inner_prod, scalar_mul - it is the rule of the OTHER slot)."""
+    from ..model import norm_text
+    from ..terms import children
+    from ..tutil import expand
+
+    ctx.describe("A5.selfread", "the VJP rule of an argument in which the JVP table declares the function linear (def_linear / 'same') reads that argument only through metadata (shape / ndim / dtype / size / vspace / metadata / iscomplexobj / len / isinstance / type / *_like templates): its value never enters the returned cotangent")
+    lin = {(e.prim_id, e.argnum) for e in world.table.entries if e.mode == "jvp" and e.spec in ("same", "linear")}
+    lin_all = {e.prim_id for e in world.table.entries if e.mode == "jvp" and e.spec == "linear" and e.argnum is None}  # def_linear(f): every argument
+
+    def is_meta(anc):
+        if anc.op == "attr" and anc.name in STRUCT_ATTRS:
+            return True
+        if anc.op == "call":
+            r, _ = resolve_callee(world.ev, anc)
+            nm = r.qual.rsplit(".", 1)[-1] if r is not None else (anc.fn.name if anc.fn.op == "attr" else None)
+            return nm in SELF_META_FN
+        return False
+
+    def occurrences(t, k, path, out, seen):
+        if t.op == "arg" and t.get("index") == k:
+            out.append(list(path))
+            return
+        if id(t) in seen and not path:
+            return
+        for c in children(t):
+            path.append(t)
+            occurrences(c, k, path, out, seen)
+            path.pop()
+
+    n = 0
+    for e in world.table.entries:
+        if e.mode != "vjp" or e.spec != "maker" or not isinstance(e.argnum, int) or ((e.prim_id, e.argnum) not in lin and e.prim_id not in lin_all) or not world.in_numpy_scope(e):
+            continue
+        ir = world.ir(e)
+        if ir is None or not ir.ok or ir.result is None:
+            ctx.ob("A5.selfread", construct_of(e), None, e.loc)
+            continue
+        n += 1
+        t = expand(world.ev, ir.result, ("autograd.core.vspace",))
+        occ = []
+        occurrences(t, e.argnum, [], occ, set())
+        def meta_only_comp(path):
+            """the argument sits in the source of a comprehension / map whose element expression reads the element
+            only through metadata:  tuple(map(metadata, (A, B)))"""
+            for i, anc in enumerate(path[:-1]):
+                if anc.op == "call" and anc.fn.op == "ref" and anc.fn.ref.qual == "builtins.map" and anc.args and anc.args[0].op == "ref" and anc.args[0].ref.qual.rsplit(".", 1)[-1] in SELF_META_FN:
+                    return True
+                if anc.op == "comp" and path[i + 1] is anc.src:
+                    el_occ = []
+
+                    def find(t, pth):
+                        if t.op == "iterelem":
+                            el_occ.append(list(pth))
+                            return
+                        for c in children(t):
+                            pth.append(t)
+                            find(c, pth)
+                            pth.pop()
+
+                    find(anc.elt, [])
+                    if el_occ and all(any(is_meta(a) for a in p_) for p_ in el_occ):
+                        return True
+            return False
+
+        bad = [p for p in occ if not any(is_meta(a) for a in p) and not meta_only_comp(p + [None])]
+        if not bad:
+            ctx.ob("A5.selfread", construct_of(e), True, e.loc, sample=f"{len(occ)} metadata read(s) of the argument, no value read")
+            continue
+        par = bad[0][-1] if bad[0] else t
+        txt = (norm_text(par.node) if par.node is not None else str(par))[:70]
+        ctx.fail("A5.selfread", construct_of(e), f"{construct_of(e)}|reads-own-argument", e.loc, f"the JVP table declares {e.prim_id} linear in argument {e.argnum}, yet the VJP rule of that argument uses the argument's own value (`{txt}`): the derivative of a linear map does not depend on the point - this is the rule of another slot (or not the adjoint of the declared tangent map)", "the two operands of the function different from each other (x != y): the cotangent is multiplied by the wrong operand")
+    ctx.floor("A5.selfread rules analysed", n, 40)
